@@ -393,8 +393,8 @@ class ExcelInPython:
             return "#NUM!"
         match mode:
             case 'Y':
-                return (date_end - date_start).days // (366 if calendar.isleap(date_start.year) and
-                                                        date_start.month <= 2 else 365)
+                return (12 * (date_end.year - date_start.year) + (date_end.month - date_start.month)
+                        - (1 if date_start.day > date_end.day else 0)) // 12
             case 'M':
                 result = 12 * (date_end.year - date_start.year) + (date_end.month - date_start.month)
                 if date_start.day > date_end.day:
